@@ -23,7 +23,7 @@ use discv5::enr::NodeId;
 use discv5::verif::{ConnectionDirection, HandlerIn, HandlerOut, RequestBody, Response, ResponseBody};
 use discv5::{Enr, NodeAddress, RequestError};
 use serde_json::{json, Value};
-use std::collections::HashMap;
+use std::collections::{HashMap, HashSet};
 use std::net::{IpAddr, Ipv6Addr, SocketAddr};
 use std::num::NonZeroU16;
 
@@ -122,9 +122,23 @@ fn decoded(cache: &mut HashMap<Vec<u8>, Enr>, raw: &[u8]) -> Enr {
 
 type Snap = HashMap<Id, (Vec<u8>, bool)>; // key -> (record bytes, connected)
 
-fn snapshot(rig: &ServiceRig) -> Snap {
+/// The records the table stores: its entries and, next to them, the candidates waiting in the
+/// pending slots of full buckets (read through the public `buckets_iter().pending()`).
+fn snapshot(rig: &ServiceRig) -> (Snap, HashSet<Id>) {
     rig.discv5.with_kbuckets(|t| {
-        t.read().iter_ref().map(|e| (e.node.key.preimage().raw(), (rlp_ref::encode_record(e.node.value), e.status.is_connected()))).collect()
+        let t = t.read();
+        let mut m: Snap = t.iter_ref().map(|e| (e.node.key.preimage().raw(), (rlp_ref::encode_record(e.node.value), e.status.is_connected()))).collect();
+        let mut waiting = HashSet::new();
+        for b in t.buckets_iter() {
+            if let Some(p) = b.pending() {
+                let id = p.value().node_id().raw();
+                if !m.contains_key(&id) {
+                    m.insert(id, (rlp_ref::encode_record(p.value()), p.status().is_connected()));
+                    waiting.insert(id);
+                }
+            }
+        }
+        (m, waiting)
     })
 }
 
@@ -148,7 +162,14 @@ pub fn scenario(seed: u64, rep: &mut Report) {
             }
         }) }).await;
         let local: Id = rig.local_id.raw();
-        let mut nodes: Vec<Node> = (0..(4 + rng.usize(10))).map(|i| {
+        // one scenario in four is crowded: enough nodes for the farthest bucket (half of all ids)
+        // to fill up, so that candidates wait in its pending slot while slots are freed and
+        // sessions with them are reported again
+        let crowded = rng.chance(1, 4);
+        if crowded {
+            rep.count("crowded_scenarios");
+        }
+        let mut nodes: Vec<Node> = (0..(if crowded { 70 + rng.usize(40) } else { 4 + rng.usize(10) })).map(|i| {
             let sk = signing_key(&mut rng);
             let id = build_enr2(&sk, 1, EnrAddr::None, EnrAddr::None, None).node_id().raw();
             let seq = match rng.below(8) {
@@ -163,12 +184,13 @@ pub fn scenario(seed: u64, rep: &mut Report) {
         let mut open_findnodes: Vec<(discv5::RequestId, NodeAddress, Vec<u64>)> = Vec::new();
         let mut open_pings: Vec<(discv5::RequestId, NodeAddress)> = Vec::new();
         let mut open_other: Vec<discv5::RequestId> = Vec::new();
-        let mut prev = snapshot(&rig);
+        let (mut prev, _) = snapshot(&rig);
         let mut cache: HashMap<Vec<u8>, Enr> = HashMap::new();
         let mut log: Vec<Value> = Vec::new();
         let mut lookups = Vec::new();
-        let nsteps = 30 + rng.usize(60);
+        let nsteps = if crowded { 320 + rng.usize(160) } else { 30 + rng.usize(60) };
         let mut admitted = 0u64;
+        let mut follow_up: Option<usize> = None;
         let mut replaced = 0u64;
         for step in 0..nsteps {
             // what may legitimately change in this step
@@ -177,8 +199,29 @@ pub fn scenario(seed: u64, rep: &mut Report) {
             let mut may_replace_user: Vec<Id> = Vec::new();
             let mut discovered_now: Vec<Enr> = Vec::new();
             let mut session_now: Option<(Id, SocketAddr, ConnectionDirection)> = None;
-            let k = rng.usize(nodes.len());
-            let what = rng.below(100);
+            let mut k = rng.usize(nodes.len());
+            let mut aimed = false;
+            // (the step after a slot was freed next to a waiting candidate: half of the time a
+            // session with that candidate, dialled with an older record)
+            let forced = match follow_up.take() {
+                Some(j) if rng.bool() => {
+                    k = j;
+                    rep.count("sessions_with_a_candidate_right_after_a_slot_was_freed");
+                    true
+                }
+                _ => false,
+            };
+            // (crowded: every other step is aimed at a node that waits in a pending slot)
+            if crowded && !forced && rng.bool() {
+                let (_, waiting) = snapshot(&rig);
+                if let Some(j) = nodes.iter().position(|n| waiting.contains(&n.id)) {
+                    k = j;
+                    aimed = true;
+                    rep.count("steps_aimed_at_a_pending_candidate");
+                }
+            }
+            // (crowded: the table is filled first, by sessions and adds)
+            let what = if forced { 0 } else if crowded && step < 160 { rng.below(42) } else { rng.below(100) };
             if what < 30 {
                 // an established session (handler-faithful: the record verifies against the socket)
                 let bump = *rng.pick(&[0i64, 0, 0, 1, 1, 2, 2, FAR]);
@@ -187,8 +230,8 @@ pub fn scenario(seed: u64, rep: &mut Report) {
                 // stored one. An outgoing session is reported with the record the request was
                 // dialled with, which may be older than what the table has learnt meanwhile
                 // (seen on the full stack).
-                let dir = if rng.bool() { ConnectionDirection::Incoming } else { ConnectionDirection::Outgoing };
-                let stale_dial = dir == ConnectionDirection::Outgoing && rng.chance(1, 2);
+                let dir = if rng.bool() && !forced { ConnectionDirection::Incoming } else { ConnectionDirection::Outgoing };
+                let stale_dial = dir == ConnectionDirection::Outgoing && (forced || rng.chance(1, 2));
                 if stale_dial {
                     rep.count("outgoing_sessions_with_possibly_stale_record");
                 } else if let Some((stored, _)) = prev.get(&nodes[k].id) {
@@ -206,9 +249,14 @@ pub fn scenario(seed: u64, rep: &mut Report) {
                 // query was answered): the session is reported with what the node handed in.
                 let older = dir == ConnectionDirection::Incoming && !prev.contains_key(&nodes[k].id) && rng.chance(1, 3);
                 let keep = nodes[k].seq;
-                let enr = shape(&mut rng, &mut nodes[k], if older { -1 } else { bump });
-                if older {
+                // (a dial may also have been made with a record older than anything current)
+                let dialled_older = stale_dial && (forced || rng.bool());
+                let back = -1 - rng.below(2) as i64;
+                let enr = shape(&mut rng, &mut nodes[k], if older { -1 } else if dialled_older { back } else { bump });
+                if older || dialled_older {
                     nodes[k].seq = keep;
+                }
+                if older {
                     rep.count("incoming_sessions_with_an_older_record_than_gossip");
                 }
                 let sock = session_socket(mode, &enr, &mut rng);
@@ -229,6 +277,14 @@ pub fn scenario(seed: u64, rep: &mut Report) {
                 may_add.push(nodes[k].id);
                 may_replace_user.push(nodes[k].id);
             } else if what < 50 {
+                // (while a candidate waits, slots of its bucket are freed: other entries go)
+                if aimed {
+                    let entries: Vec<usize> = (0..nodes.len()).filter(|j| prev.contains_key(&nodes[*j].id) && nodes[*j].id != nodes[k].id && (nodes[*j].id[0] ^ local[0]) & 0x80 == (nodes[k].id[0] ^ local[0]) & 0x80).collect();
+                    if !entries.is_empty() {
+                        follow_up = Some(k);
+                        k = *rng.pick(&entries);
+                    }
+                }
                 let r = rig.discv5.remove_node(&NodeId::new(&nodes[k].id));
                 log.push(json!({"step": step, "ev": "remove_node", "node": hx(&nodes[k].id[..4]), "result": r}));
             } else if what < 55 {
@@ -312,7 +368,10 @@ pub fn scenario(seed: u64, rep: &mut Report) {
             rig.take_events();
             // ---- the monitor ----
             rep.count("monitor_walks");
-            let now = snapshot(&rig);
+            let (now, waiting_now) = snapshot(&rig);
+            if !waiting_now.is_empty() {
+                rep.count("walks_with_pending_candidates");
+            }
             let w = |what: &str| json!({"scenario_seed": seed.to_string(), "what": what, "ip_mode": format!("{mode:?}"), "table_filter": fname, "ip_limit": ip_limit, "log": log.iter().rev().take(12).rev().cloned().collect::<Vec<_>>()});
             for (key, (rec, _)) in &now {
                 let enr = decoded(&mut cache, rec);
